@@ -25,6 +25,13 @@ CHECKS = {
             "codec: one response per request with its own seq, nothing unsolicited, handler at most once, result delivered to its requester, "
             "connection still usable afterwards.",
             "DESIGN.md C08", ""),
+    "C10": ("exploration",
+            "deterministic simulation: seeded histories with the simulator owning the delivery order of the two one-way streams; oracle = refcount ledger, weakrefs, both peers' tables",
+            "Seeded search over histories {send again (alone/twice/nested, result or argument), drop, collect, pass back, deliver next frame "
+            "either way, GC} in which frames move only when the history says so - so release notices cross fresh references - followed by "
+            "drain / use every live proxy / drop everything / close. Oracle: owner keeps an object while the peer holds a live proxy, "
+            "forgets it exactly when the last proxy and its release notice are gone, tables empty after close.",
+            "DESIGN.md C10", ""),
 }
 
 NOT_APPLICABLE = {
